@@ -276,6 +276,14 @@ def _selection(ctx, P):
         ("partition: at-position variable preferred whatever the registration order", {fs([AX]): [mvar("dxg", [l("AX")]), mvar("dxc", [c("AX")])], fs([AZ]): [mvar("dz", [c("AZ")])]}, [c("AX"), l("AZ")], (AX, AZ), ["dxc", "INTERP(dz)"], 1),
         ("three axes: largest block first", full, [c("AX"), c("AY"), c("AZ")], (AX, AY, AZ), ["area_c", "dz"], 0),
         ("three axes, only 1-D metrics", only1d, [c("AX"), c("AY"), c("AZ")], (AX, AY, AZ), ["dxc", "dyc", "dz"], 0),
+        # an earlier-tried partition ({AX,AY} x {AZ}) is only partly registered, a later one ({AY,AZ} x {AX}) completely:
+        # the factors found while trying the first must not leak into the product of the second
+        ("three axes: a partly registered partition is abandoned without trace",
+         {fs([AX, AY]): [mvar("area_xy", [c("AX"), c("AY")])], fs([AY, AZ]): [mvar("area_yz", [c("AY"), c("AZ")])], fs([AX]): [mvar("dxc", [c("AX")])]},
+         [c("AX"), c("AY"), c("AZ")], (AX, AY, AZ), ["area_yz", "dxc"], 0),
+        ("three axes: the same with the complete partition listed first",
+         {fs([AY, AZ]): [mvar("area_yz", [c("AY"), c("AZ")])], fs([AX]): [mvar("dxc", [c("AX")])], fs([AX, AY]): [mvar("area_xy", [c("AX"), c("AY")])]},
+         [c("AX"), c("AY"), c("AZ")], (AX, AY, AZ), ["area_yz", "dxc"], 0),
         ("nothing registered for an axis", {fs([AX]): full[fs([AX])]}, [c("AX"), c("AY")], (AX, AY), "raise", 0),
         ("array without a dimension of the axis", full, [Sym("t"), c("AY")], (AX,), "raise", 0),
     ]
